@@ -438,6 +438,77 @@ func r8bodyGen(r *Rng, nl string, eightBit bool) []byte {
 
 var r8boundarySeq int
 
+// boundary relations (C13-edv1): the boundaries chosen so far in the message under construction and the ones of
+// the enclosing multiparts. A new boundary is sometimes an earlier one plus a suffix or a proper prefix of an earlier
+// one (enclosing, sibling or cousin multipart); leaf bodies sometimes hold lines that start with an enclosing
+// delimiter followed by more characters. None of these lines is a delimiter (RFC 2046 5.1.1).
+var r8c13AllBoundaries, r8c13BoundaryStack []string
+
+var r8c13BoundarySuffixes = []string{"-alt", "x", "0", "1", ".a", "=_", "_", "b"}
+
+func r8c13RelatedBoundary(r *Rng, st *Stats, base string) string {
+	if len(r8c13AllBoundaries) == 0 || !r.Chance(2, 5) {
+		return base
+	}
+	from := Pick(r, r8c13AllBoundaries)
+	if len(r8c13BoundaryStack) > 0 && r.Bool() {
+		from = r8c13BoundaryStack[len(r8c13BoundaryStack)-1]
+	}
+	cand, how := "", ""
+	if r.Bool() {
+		cand, how = from+Pick(r, r8c13BoundarySuffixes), "extends"
+	} else if len(from) > 1 {
+		cut := r.Range(1, 3)
+		if cut > len(from)-1 {
+			cut = len(from) - 1
+		}
+		cand, how = from[:len(from)-cut], "prefix-of"
+	}
+	if cand == "" || strings.HasSuffix(cand, " ") || strings.HasSuffix(cand, "--") || cand == "-" {
+		return base
+	}
+	for _, b := range r8c13AllBoundaries {
+		if b == cand {
+			return base
+		}
+	}
+	if st != nil {
+		st.Inc("msg.boundary." + how)
+	}
+	return cand
+}
+
+// r8c13NearDelimiterLines puts lines that start with an enclosing delimiter plus more characters into a leaf body.
+func r8c13NearDelimiterLines(r *Rng, st *Stats, body []byte, nl string) []byte {
+	if len(r8c13BoundaryStack) == 0 || !r.Chance(1, 5) {
+		return body
+	}
+	b := Pick(r, r8c13BoundaryStack)
+	line := "--" + b + Pick(r, r8c13BoundarySuffixes)
+	if r.Chance(1, 4) {
+		line += "--"
+	}
+	for _, e := range r8c13BoundaryStack {
+		// with related boundaries around, boundary + suffix can be another enclosing delimiter: not wanted here
+		if line == "--"+e || line == "--"+e+"--" {
+			return body
+		}
+	}
+	if st != nil {
+		st.Inc("msg.body.near-delimiter-line")
+	}
+	switch {
+	case len(body) == 0 || r.Chance(1, 3):
+		return append([]byte(line+nl), body...)
+	case strings.HasSuffix(string(body), nl):
+		if r.Bool() {
+			return append(body, line+nl...)
+		}
+		return append(body, line...)
+	}
+	return append(append(body, nl...), line+nl...)
+}
+
 // r8build makes a message (or message part) tree of the given depth budget.
 func r8build(r *Rng, depth int, nl string, eightBit bool, top bool) *r8node {
 	n := &r8node{nl: nl, clean: true}
@@ -458,12 +529,15 @@ func r8build(r *Rng, depth int, nl string, eightBit bool, top bool) *r8node {
 		if r.Chance(1, 2) {
 			ctLine = "Content-Type: " + Pick(r, []string{"text/plain", "text/plain; charset=utf-8", "text/html", "application/octet-stream", "TEXT/PLAIN; format=flowed", "garbage;;;", "image/png; name=\"a b.png\""}) + nl
 		}
-		n.body = r8bodyGen(r, nl, eightBit)
+		n.body = r8c13NearDelimiterLines(r, r8c13Stats, r8bodyGen(r, nl, eightBit), nl)
 	case 1:
 		// unique per message (r8boundarySeq is reset for every message); small numbers so that one
 		// boundary can be a proper prefix of another (b1 / b12)
 		r8boundarySeq++
 		n.boundary = fmt.Sprintf("%s%d", Pick(r, []string{"b", "b", "=_Part_", "----=_NextPart", "x.y", "simple boundary "}), r8boundarySeq)
+		n.boundary = r8c13RelatedBoundary(r, r8c13Stats, n.boundary)
+		r8c13AllBoundaries = append(r8c13AllBoundaries, n.boundary)
+		r8c13BoundaryStack = append(r8c13BoundaryStack, n.boundary)
 		quoted := strings.ContainsAny(n.boundary, " =") || r.Bool()
 		bparam := n.boundary
 		if quoted {
@@ -484,6 +558,7 @@ func r8build(r *Rng, depth int, nl string, eightBit bool, top bool) *r8node {
 		for i := 0; i < nch; i++ {
 			n.children = append(n.children, r8build(r, depth-1, nl, eightBit, false))
 		}
+		r8c13BoundaryStack = r8c13BoundaryStack[:len(r8c13BoundaryStack)-1]
 		if r.Chance(1, 3) {
 			n.preamble = append(r8bodyGen(r, nl, false), nl...)
 		}
@@ -619,6 +694,7 @@ func r8genMsg(r *Rng, st *Stats, big bool) r8msg {
 		eight := r.Chance(1, 3)
 		depth := Pick(r, []int{0, 0, 1, 1, 2, 2, 3})
 		r8boundarySeq = r.Intn(3)
+		r8c13AllBoundaries, r8c13BoundaryStack = nil, nil
 		root := r8build(r, depth, nl, eight, true)
 		if big {
 			// one large leaf body so that offsets cross 64 KiB / 256 KiB
